@@ -299,6 +299,17 @@ func incrResText(r incremental.Result[int64]) string {
 
 const incrWatchdog = 1200 * time.Millisecond
 
+// Deadlines are SOFT: when one expires the engine does not conclude at once (the machine may
+// just be busy) but samples the goroutine dump. A hang / leak / "will not park" verdict is
+// reached only after incrQuietSamples consecutive samples, incrSampleEvery apart, in which every
+// goroutine that is inside the executor or inside a query is parked (channel, select, semaphore,
+// sync primitive) -- i.e. nothing can make progress any more -- or after incrHardCap.
+const (
+	incrSampleEvery  = 125 * time.Millisecond
+	incrQuietSamples = 5
+	incrHardCap      = 30 * time.Second
+)
+
 // Every hang costs a watchdog period and every leaked permit a grace period. On a broken tree
 // thousands of ops may hang; after this many the engine stops waiting (the answers still differ
 // from the model's, so the check fails, but it fails fast).
@@ -326,13 +337,28 @@ func (e *incrEngine) runGroup(groups [][]int, withFlags bool, coarse bool, seque
 			done <- i
 		}()
 	}
-	timeout := time.After(incrWatchdog)
+	timer := time.NewTimer(incrWatchdog)
+	defer timer.Stop()
+	hardCap := time.Now().Add(incrHardCap)
+	quiet := 0
 	finished := make([]bool, len(groups))
-	for n := 0; n < len(groups); n++ {
+	for n := 0; n < len(groups); {
 		select {
 		case i := <-done:
 			finished[i] = true
-		case <-timeout:
+			n++
+		case <-timer.C:
+			// soft deadline: hung only if nothing can make progress any more. A run that is still
+			// held by the harness's own gate is waiting for the harness, not hung.
+			if incrAllParked() && !e.gateClosedPending() {
+				quiet++
+			} else {
+				quiet = 0
+			}
+			if quiet < incrQuietSamples && time.Now().Before(hardCap) {
+				timer.Reset(incrSampleEvery)
+				continue
+			}
 			e.hung = true
 			incrSlowCount++
 			var hs []string
@@ -586,8 +612,8 @@ func (e *incrEngine) dump() string {
 	return "tasks " + strings.Join(parts, " ")
 }
 
-// incrParkedIn counts the goroutines blocked in a select inside the given function.
-func incrParkedIn(fn string) int {
+// incrGoroutines returns the goroutine dump split into one block per goroutine.
+func incrGoroutines() []string {
 	buf := make([]byte, 1<<20)
 	for {
 		n := runtime.Stack(buf, true)
@@ -597,8 +623,13 @@ func incrParkedIn(fn string) int {
 		}
 		buf = make([]byte, 2*len(buf))
 	}
+	return strings.Split(string(buf), "\n\n")
+}
+
+// incrParkedIn counts the goroutines blocked in a select inside the given function.
+func incrParkedIn(fn string) int {
 	c := 0
-	for _, g := range strings.Split(string(buf), "\n\n") {
+	for _, g := range incrGoroutines() {
 		if strings.Contains(g, fn) && strings.Contains(g, "[select") {
 			c++
 		}
@@ -606,20 +637,112 @@ func incrParkedIn(fn string) int {
 	return c
 }
 
-// incrParkedCount counts the goroutines blocked in the select of (*task).waitUntilDone.
-func incrParkedCount() int { return incrParkedIn("(*task).waitUntilDone") }
+// incrGoroutineState extracts the wait state from "goroutine 12 [select, 2 minutes]:".
+func incrGoroutineState(g string) string {
+	i := strings.IndexByte(g, '[')
+	j := strings.IndexByte(g, ']')
+	if i < 0 || j < i {
+		return "?"
+	}
+	st := g[i+1 : j]
+	if k := strings.IndexByte(st, ','); k >= 0 {
+		st = st[:k]
+	}
+	return st
+}
 
-// incrWaitParked polls until more than base goroutines are parked in waitUntilDone
-// (goroutines stranded by earlier cases stay parked for ever) or the deadline passes.
-func incrWaitParked(base int, d time.Duration) bool {
-	deadline := time.Now().Add(d)
-	for time.Now().Before(deadline) {
-		if incrParkedCount() > base {
+// incrIsParkedState: blocked on a channel, select, semaphore or sync primitive -- a state that
+// only another goroutine can end. running / runnable / preempted / sleep / syscall / GC waits
+// are not: the goroutine will go on by itself once it gets a CPU.
+func incrIsParkedState(st string) bool {
+	return strings.HasPrefix(st, "chan ") || strings.HasPrefix(st, "select") ||
+		strings.HasPrefix(st, "semacquire") || strings.HasPrefix(st, "sync.")
+}
+
+// incrAllParked reports whether every goroutine that is inside the incremental executor or inside
+// one of the harness's queries is parked (goroutines stranded by earlier cases are parked for ever
+// and do not matter). Only then can a missed deadline be blamed on the code rather than on load.
+func incrAllParked() bool {
+	for _, g := range incrGoroutines() {
+		if !strings.Contains(g, "protocompile/experimental/") && !strings.Contains(g, "engines.incrQ.Execute") {
+			continue
+		}
+		if !incrIsParkedState(incrGoroutineState(g)) {
+			return false
+		}
+	}
+	return true
+}
+
+// incrWaitFor polls cond. After the soft deadline it gives up only once the executor has been
+// quiescent (incrAllParked) for incrQuietSamples consecutive samples, or after incrHardCap.
+func incrWaitFor(soft time.Duration, cond func() bool) bool {
+	start := time.Now()
+	quiet := 0
+	var nextSample time.Time
+	for {
+		if cond() {
 			return true
+		}
+		now := time.Now()
+		if el := now.Sub(start); el >= soft {
+			if el >= incrHardCap {
+				return false
+			}
+			if !now.Before(nextSample) {
+				if incrAllParked() {
+					quiet++
+				} else {
+					quiet = 0
+				}
+				if quiet >= incrQuietSamples {
+					return cond()
+				}
+				nextSample = now.Add(incrSampleEvery)
+			}
 		}
 		time.Sleep(200 * time.Microsecond)
 	}
-	return false
+}
+
+// incrWaitSignal waits for a value on ch with the same soft-deadline rule.
+func incrWaitSignal(soft time.Duration, ch <-chan struct{}) bool {
+	got := false
+	return incrWaitFor(soft, func() bool {
+		if got {
+			return true
+		}
+		select {
+		case <-ch:
+			got = true
+		default:
+		}
+		return got
+	})
+}
+
+// gateClosedPending reports whether a gate op is in progress and its gate has not been opened yet.
+func (e *incrEngine) gateClosedPending() bool {
+	e.w.mu.Lock()
+	defer e.w.mu.Unlock()
+	if e.w.gateCh == nil {
+		return false
+	}
+	select {
+	case <-e.w.gateCh:
+		return false
+	default:
+		return true
+	}
+}
+
+// incrParkedCount counts the goroutines blocked in the select of (*task).waitUntilDone.
+func incrParkedCount() int { return incrParkedIn("(*task).waitUntilDone") }
+
+// incrWaitParked waits until more than base goroutines are parked in waitUntilDone (goroutines
+// stranded by earlier cases stay parked for ever); gives up when the executor is quiescent.
+func incrWaitParked(base int, soft time.Duration) bool {
+	return incrWaitFor(soft, func() bool { return incrParkedCount() > base })
 }
 
 func (e *incrEngine) Exec(op string) string {
@@ -765,10 +888,7 @@ func (e *incrEngine) Exec(op string) string {
 		ans := e.runGroup([][]int{a, b}, false, false, func(i int) {
 			if i == 1 {
 				// second Run starts only once the first one is inside Execute of the gate key
-				select {
-				case <-started:
-				case <-time.After(incrWatchdog / 2):
-				}
+				incrWaitSignal(incrWatchdog/2, started)
 				go func() {
 					// let the gate key proceed once the second Run is parked on it
 					incrWaitParked(parkedBefore, incrWatchdog/3)
@@ -809,16 +929,8 @@ func (e *incrEngine) Exec(op string) string {
 		base := incrParkedIn("(*Task).acquire")
 		want := base + len(roots) - 1
 		go func() {
-			select {
-			case <-started:
-			case <-time.After(incrWatchdog / 2):
-			}
-			for deadline := time.Now().Add(incrWatchdog / 3); time.Now().Before(deadline); {
-				if incrParkedIn("(*Task).acquire") >= want {
-					break
-				}
-				time.Sleep(200 * time.Microsecond)
-			}
+			incrWaitSignal(incrWatchdog/2, started)
+			incrWaitFor(incrWatchdog/3, func() bool { return incrParkedIn("(*Task).acquire") >= want })
 			e.w.mu.Lock()
 			select {
 			case <-gate:
@@ -837,16 +949,12 @@ func (e *incrEngine) Exec(op string) string {
 	case "permits":
 		// goroutines spawned by Resolve may outlive a Run that failed (its context is cancelled and
 		// the root stops waiting for them); give such stragglers a moment to release their permit
-		for deadline := time.Now().Add(500 * time.Millisecond); ; {
-			if e.ex.VerifPermitsFree(int64(e.p)) {
-				return "free"
-			}
-			if time.Now().After(deadline) {
-				incrSlowCount++
-				return "leak"
-			}
-			time.Sleep(200 * time.Microsecond)
+		// (soft deadline: a leak is concluded only when no straggler can still make progress)
+		if incrWaitFor(500*time.Millisecond, func() bool { return e.ex.VerifPermitsFree(int64(e.p)) }) {
+			return "free"
 		}
+		incrSlowCount++
+		return "leak"
 	}
 	return "bad-op"
 }
